@@ -1,7 +1,390 @@
 /-
-  C02 — largest remainder and quota distribution (stub; theorems follow)
+  C02 — largest remainder: whole quotas first, then the largest exact remainders; over-award policies;
+  textbook quota values.  Property theorems only (helper lemmas: VotelibProofs/Lemmas/QuotaDist.lean).
+
+  Reading (DESIGN "### C02").  `q = quota(V, n) > 0`; `wholeQ q ae v = ⌊v / q⌋`, except `0` for a party exactly on
+  the quota when `accept_equal` is off; `wholeAward = max (wholeQ − prev) 0`.  The model is
+  `VL.QD.quotaDistribute` / `VL.QD.largestRemainder` (VotelibModel/QuotaDist.lean), which is what the driver runs.
+
+  The cap / overshoot branch of the code (proportional.py L236-257) is defective on the current tree (known
+  findings C02-a, C02-b, C02-d); the theorems about whole quotas, policies and remainders therefore carry the
+  decidable hypothesis `NoCapBinds` (no explicit cap and not the default cap `n_seats` binds on any party's whole
+  quotas), the cap theorems are `_partial`, and the failing shapes are proved as `_witness` theorems.
 -/
-import VotelibModel.QuotaDist
-import VotelibModel.Gen.Quota
+import VotelibProofs.Lemmas.QuotaDist
 namespace VL.C02
+open VL VL.QD
+
+/-! ## 1. the named quota functions return their textbook values -/
+
+theorem quota_textbook_hare (V : Rat) (n : Nat) : Gen.Quota.hare V n = V / n := rfl
+
+theorem quota_textbook_hagenbach_bischoff (V : Rat) (n : Nat) :
+    Gen.Quota.hagenbach_bischoff V n = V / (n + 1) := by
+  unfold Gen.Quota.hagenbach_bischoff; push_cast; rfl
+
+theorem quota_textbook_imperiali (V : Rat) (n : Nat) : Gen.Quota.imperiali V n = V / (n + 2) := by
+  unfold Gen.Quota.imperiali; push_cast; rfl
+
+/-- Droop: `⌊V / (n+1)⌋ + 1` (Python's `int()` truncates toward zero, which is the floor for `V ≥ 0`) -/
+theorem quota_textbook_droop (V : Rat) (n : Nat) (hV : 0 ≤ V) :
+    Gen.Quota.droop V n = ((⌊V / (n + 1)⌋ + 1 : Int) : Rat) := by
+  unfold Gen.Quota.droop
+  have h : (0 : Rat) ≤ V / (((n + 1 : Nat)) : Rat) := div_nonneg hV (by positivity)
+  rw [pyInt_nonneg h]
+  push_cast; rfl
+
+theorem quota_textbook_hagenbach_bischoff_ceil (V : Rat) (n : Nat) :
+    Gen.Quota.hagenbach_bischoff_ceil V n = ((⌈V / (n + 1)⌉ : Int) : Rat) := by
+  unfold Gen.Quota.hagenbach_bischoff_ceil
+  rw [pyCeil_eq]; push_cast; rfl
+
+/-- `_round_half_up` is rounding to the nearest integer with halves up: `⌊x + 1/2⌋` -/
+theorem quota_round_half_up (x : Rat) : Gen.Quota.round_half_up x = ⌊x + 1 / 2⌋ := round_half_up_eq x
+
+theorem quota_textbook_hare_rounded (V : Rat) (n : Nat) :
+    Gen.Quota.hare_rounded V n = ((⌊V / n + 1 / 2⌋ : Int) : Rat) := by
+  unfold Gen.Quota.hare_rounded
+  rw [round_half_up_eq]
+
+theorem quota_textbook_hagenbach_bischoff_rounded (V : Rat) (n : Nat) :
+    Gen.Quota.hagenbach_bischoff_rounded V n = ((⌊V / (n + 1) + 1 / 2⌋ : Int) : Rat) := by
+  unfold Gen.Quota.hagenbach_bischoff_rounded
+  rw [round_half_up_eq]; push_cast; rfl
+
+/-- the Droop quota is positive for every non-negative total: it can never divide by zero -/
+theorem quota_droop_pos (V : Rat) (n : Nat) (hV : 0 ≤ V) : 0 < Gen.Quota.droop V n := by
+  rw [quota_textbook_droop V n hV]
+  have : 0 ≤ ⌊V / ((n : Rat) + 1)⌋ := Int.floor_nonneg.mpr (div_nonneg hV (by positivity))
+  exact_mod_cast (by omega : 0 < ⌊V / ((n : Rat) + 1)⌋ + 1)
+
+/-- Droop is the smallest integer strictly above `V / (n+1)` -/
+theorem quota_droop_least (V : Rat) (n : Nat) (hV : 0 ≤ V) :
+    V / (n + 1) < Gen.Quota.droop V n ∧ Gen.Quota.droop V n - 1 ≤ V / (n + 1) := by
+  rw [quota_textbook_droop V n hV]
+  push_cast
+  exact ⟨Int.lt_floor_add_one _, by linarith [Int.floor_le (V / ((n : Rat) + 1))]⟩
+
+example : Gen.Quota.droop 100 3 = 26 := by decide +kernel
+example : Gen.Quota.hare_rounded 7 2 = 4 := by decide +kernel          -- 3.5 rounds up
+example : Gen.Quota.hagenbach_bischoff_rounded 5 1 = 3 := by decide +kernel   -- 2.5 rounds up (not to even)
+example : Gen.Quota.hagenbach_bischoff_ceil 100 2 = 34 := by decide +kernel
+
+/-! ## 2. QuotaDistributor: whole quotas and the over-award policies -/
+
+/-- well-formed request: Python dicts have distinct keys; vote counts and previous gains are non-negative -/
+structure WF (votes : Votes) (prev : IMap) : Prop where
+  keys_nodup : (votes.map (·.1)).Nodup
+  votes_nonneg : ∀ p ∈ votes, 0 ≤ p.2
+  prev_nodup : (prev.map (·.1)).Nodup
+  prev_nonneg : ∀ c, 0 ≤ getI prev c 0
+
+/-- no cap binds on the whole quotas: every party's whole quotas are within its cap (`max_seats`, by default
+    the house size `n`, as the code has it at L236) or already covered by previous gains -/
+def NoCapBinds (q : Rat) (ae : Bool) (n : Nat) (prev maxS : IMap) (votes : Votes) : Prop :=
+  ∀ p ∈ votes, wholeQ q ae p.2 ≤ getI maxS p.1 n ∨ wholeQ q ae p.2 ≤ getI prev p.1 0
+
+/-- seats handed out so far, previous gains of all parties included (the code's `total_awarded`, L258) -/
+def totalAwarded (q : Rat) (ae : Bool) (prev : IMap) (votes : Votes) : Int :=
+  sumK (wholeSel q ae prev votes) + sumI prev
+
+private theorem noBindCode_of {q : Rat} (hq : 0 < q) {ae : Bool} {n : Nat} {prev maxS : IMap} {votes : Votes}
+    (hv : ∀ p ∈ votes, 0 ≤ p.2) (h : NoCapBinds q ae n prev maxS votes) :
+    ∀ p ∈ votes, NoBindCode q ae (n : Int) prev maxS p := by
+  intro p hp hf hpos
+  rw [pyInt_eq_wholeQ hq (hv p hp) hf] at hpos ⊢
+  rcases h p hp with h1 | h2
+  · exact h1
+  · omega
+
+/-- **Whole quotas.**  When no cap binds, `QuotaDistributor.evaluate` is the over-award policy applied to
+    the dict of whole-quota awards `max (⌊v/q⌋ − prev) 0` (with the `accept_equal` edge), positive entries only,
+    in the order of `votes`. -/
+theorem qd_whole_quotas (cfg : Cfg) (votes : Votes) (n : Nat) (prev maxS : IMap) (hwf : WF votes prev)
+    (hq : 0 < cfg.quota (sumVals votes) n)
+    (hnb : NoCapBinds (cfg.quota (sumVals votes) n) cfg.acceptEqual n prev maxS votes) :
+    quotaDistribute cfg votes n prev maxS =
+      applyPolicy cfg votes n prev (wholeSel (cfg.quota (sumVals votes) n) cfg.acceptEqual prev votes) := by
+  rw [quotaDistribute_noBind cfg votes n prev maxS (ne_of_gt hq)
+    (noBindCode_of hq hwf.votes_nonneg hnb) hwf.keys_nodup,
+    filterMap_awardOf_eq hq cfg.acceptEqual prev votes hwf.votes_nonneg hwf.prev_nonneg]
+
+/-- the value of the whole-quota dict at a party: `max (wholeQ − prev) 0` -/
+theorem wholeSel_get (q : Rat) (ae : Bool) (prev : IMap) (votes : Votes) (hnd : (votes.map (·.1)).Nodup)
+    (p : Cand × Rat) (hp : p ∈ votes) :
+    getK (wholeSel q ae prev votes) (.cand p.1) 0 = max (wholeQ q ae p.2 - getI prev p.1 0) 0 :=
+  getK_wholeSel q ae prev votes hnd p hp
+
+/-- no over-award: the whole quotas are returned as they are -/
+theorem qd_no_overaward (cfg : Cfg) (votes : Votes) (n : Nat) (prev maxS : IMap) (hwf : WF votes prev)
+    (hq : 0 < cfg.quota (sumVals votes) n)
+    (hnb : NoCapBinds (cfg.quota (sumVals votes) n) cfg.acceptEqual n prev maxS votes)
+    (hle : totalAwarded (cfg.quota (sumVals votes) n) cfg.acceptEqual prev votes ≤ n) :
+    quotaDistribute cfg votes n prev maxS =
+      .ok (wholeSel (cfg.quota (sumVals votes) n) cfg.acceptEqual prev votes) := by
+  rw [qd_whole_quotas cfg votes n prev maxS hwf hq hnb]
+  unfold applyPolicy
+  simp only
+  rw [if_neg (by unfold totalAwarded at hle; omega)]
+
+/-- policy `'error'`: `VotingSystemError` exactly when the whole quotas (with previous gains) exceed the house -/
+theorem qd_policy_error (cfg : Cfg) (votes : Votes) (n : Nat) (prev maxS : IMap) (hwf : WF votes prev)
+    (hq : 0 < cfg.quota (sumVals votes) n)
+    (hnb : NoCapBinds (cfg.quota (sumVals votes) n) cfg.acceptEqual n prev maxS votes)
+    (hpol : cfg.onOver = .error) (hname : cfg.named = true)
+    (hgt : (n : Int) < totalAwarded (cfg.quota (sumVals votes) n) cfg.acceptEqual prev votes) :
+    quotaDistribute cfg votes n prev maxS = .error .votingSystemError := by
+  rw [qd_whole_quotas cfg votes n prev maxS hwf hq hnb]
+  unfold applyPolicy
+  simp only
+  rw [if_pos (by unfold totalAwarded at hgt; omega), hpol]
+  simp [hname]
+
+/-- policy `'ignore'`: the surplus is kept, the whole quotas are returned unchanged -/
+theorem qd_policy_ignore (cfg : Cfg) (votes : Votes) (n : Nat) (prev maxS : IMap) (hwf : WF votes prev)
+    (hq : 0 < cfg.quota (sumVals votes) n)
+    (hnb : NoCapBinds (cfg.quota (sumVals votes) n) cfg.acceptEqual n prev maxS votes)
+    (hpol : cfg.onOver = .ignore) :
+    quotaDistribute cfg votes n prev maxS =
+      .ok (wholeSel (cfg.quota (sumVals votes) n) cfg.acceptEqual prev votes) := by
+  rw [qd_whole_quotas cfg votes n prev maxS hwf hq hnb]
+  unfold applyPolicy
+  simp only
+  split
+  · rw [hpol]
+  · rfl
+
+/-- policy `'subtract'`: whenever it returns, exactly the surplus has been withdrawn — the total with previous
+    gains is the house size -/
+theorem qd_policy_subtract_total (cfg : Cfg) (votes : Votes) (n : Nat) (prev maxS : IMap) (hwf : WF votes prev)
+    (hq : 0 < cfg.quota (sumVals votes) n)
+    (hnb : NoCapBinds (cfg.quota (sumVals votes) n) cfg.acceptEqual n prev maxS votes)
+    (hpol : cfg.onOver = .subtract)
+    (hgt : (n : Int) < totalAwarded (cfg.quota (sumVals votes) n) cfg.acceptEqual prev votes)
+    (r : Sel) (hr : quotaDistribute cfg votes n prev maxS = .ok r) :
+    sumK r + sumI prev = n := by
+  rw [qd_whole_quotas cfg votes n prev maxS hwf hq hnb] at hr
+  unfold applyPolicy at hr
+  simp only at hr
+  rw [if_pos (by unfold totalAwarded at hgt; omega), hpol] at hr
+  simp only [subtractOveraward] at hr
+  obtain ⟨h1, _⟩ := subtractLoop_sum votes _ prev _ _ r (KNodup_wholeSel _ _ _ _ hwf.keys_nodup) hr
+  unfold totalAwarded at hgt
+  rw [h1]
+  omega
+
+/-! ## 3. LargestRemainder: whole quotas, then the largest exact remainders -/
+
+/-- the hypotheses under which the whole-quota stage of `LargestRemainder` is plain: a positive quota, no party's
+    whole quotas beyond the house (the default cap of its `QuotaDistributor`; `max_seats` is not passed on) and
+    no over-award -/
+structure Plain (cfg : Cfg) (votes : Votes) (n : Nat) (prev : IMap) : Prop where
+  wf : WF votes prev
+  quota_pos : 0 < cfg.quota (sumVals votes) n
+  no_bind : NoCapBinds (cfg.quota (sumVals votes) n) cfg.acceptEqual n prev [] votes
+  no_over : totalAwarded (cfg.quota (sumVals votes) n) cfg.acceptEqual prev votes ≤ n
+
+/-- seats left for the remainder stage -/
+def remSeats (q : Rat) (ae : Bool) (n : Nat) (prev : IMap) (votes : Votes) : Int :=
+  (n : Int) - totalAwarded q ae prev votes
+
+/-- the winners of the remainder stage: `get_n_best` over the exact remainders `v/q − gained` of the parties
+    still below their cap -/
+def lrBest (q : Rat) (ae : Bool) (n : Nat) (prev maxS : IMap) (votes : Votes) : List Slot :=
+  getNBest (lrRems q ae prev maxS votes) (remSeats q ae n prev votes).toNat
+
+/-- **Structure of the result.**  `LargestRemainder.evaluate` = the whole-quota dict, plus one seat for every
+    place of `get_n_best(remainders, n − awarded)`. -/
+theorem lr_whole_then_remainders (cfg : Cfg) (votes : Votes) (n : Nat) (prev maxS : IMap)
+    (h : Plain cfg votes n prev) :
+    largestRemainder cfg votes n prev maxS =
+      .ok ((lrBest (cfg.quota (sumVals votes) n) cfg.acceptEqual n prev maxS votes).foldl
+            (fun acc s => incK acc (slotKey s))
+            (wholeSel (cfg.quota (sumVals votes) n) cfg.acceptEqual prev votes)) := by
+  unfold largestRemainder
+  rw [qd_no_overaward cfg votes n prev [] h.wf h.quota_pos h.no_bind h.no_over]
+  simp only
+  rw [lrRemainders_eq _ _ _ _ _ h.wf.keys_nodup h.wf.prev_nodup, sumK_addDict, sumK_prevAsSel]
+  rw [if_neg (fun hh => (ne_of_gt h.quota_pos) hh.1)]
+  rfl
+
+/-- **Whole quotas plus at most one.**  Every party ends with its whole-quota award, plus exactly one seat if
+    it is an individual winner of the remainder stage, and nothing else. -/
+theorem lr_floor_plus_01 (cfg : Cfg) (votes : Votes) (n : Nat) (prev maxS : IMap) (h : Plain cfg votes n prev)
+    (res : Sel) (hres : largestRemainder cfg votes n prev maxS = .ok res) (p : Cand × Rat) (hp : p ∈ votes) :
+    getK res (.cand p.1) 0 = wholeAward (cfg.quota (sumVals votes) n) cfg.acceptEqual prev p +
+      (if Slot.cand p.1 ∈ lrBest (cfg.quota (sumVals votes) n) cfg.acceptEqual n prev maxS votes then 1 else 0) := by
+  rw [lr_whole_then_remainders cfg votes n prev maxS h] at hres
+  injection hres with hres
+  subst hres
+  rw [getK_foldl_incK, getK_wholeSel _ _ _ _ h.wf.keys_nodup p hp, count_slotKey_cand]
+  have hle := count_cand_getNBest_le_one (lrRems (cfg.quota (sumVals votes) n) cfg.acceptEqual prev maxS votes)
+    (List.Nodup.sublist (keys_lrRems_sublist _ _ _ _ _) h.wf.keys_nodup)
+    (remSeats (cfg.quota (sumVals votes) n) cfg.acceptEqual n prev votes).toNat p.1
+  unfold lrBest
+  split
+  · rename_i hm
+    have := List.count_pos_iff.mpr hm
+    have e : List.count (Slot.cand p.1) (getNBest (lrRems (cfg.quota (sumVals votes) n) cfg.acceptEqual prev maxS votes)
+      (remSeats (cfg.quota (sumVals votes) n) cfg.acceptEqual n prev votes).toNat) = 1 := by omega
+    rw [e]; rfl
+  · rename_i hm
+    rw [List.count_eq_zero.mpr hm]; rfl
+
+/-- a remainder seat only goes to a party of the election that is still below its cap -/
+theorem lr_extra_only_eligible (cfg : Cfg) (votes : Votes) (n : Nat) (prev maxS : IMap) (c : Cand)
+    (hc : Slot.cand c ∈ lrBest (cfg.quota (sumVals votes) n) cfg.acceptEqual n prev maxS votes) :
+    ∃ p ∈ votes, p.1 = c ∧ eligible (cfg.quota (sumVals votes) n) cfg.acceptEqual prev maxS p = true := by
+  obtain ⟨e, he, hec⟩ := cand_mem_getNBest _ _ _ hc
+  obtain ⟨p, hp, hel, rfl⟩ := mem_lrRems he
+  exact ⟨p, hp, hec, hel⟩
+
+/-- **Largest remainders.**  If an eligible party `p` wins a remainder seat and an eligible party `p'` does not,
+    then the exact remainder of `p'` is not larger than that of `p`. -/
+theorem lr_largest_remainders (cfg : Cfg) (votes : Votes) (n : Nat) (prev maxS : IMap)
+    (hnd : (votes.map (·.1)).Nodup) (p p' : Cand × Rat) (hp : p ∈ votes) (hp' : p' ∈ votes)
+    (hel : eligible (cfg.quota (sumVals votes) n) cfg.acceptEqual prev maxS p = true)
+    (hel' : eligible (cfg.quota (sumVals votes) n) cfg.acceptEqual prev maxS p' = true)
+    (hwin : Slot.cand p.1 ∈ lrBest (cfg.quota (sumVals votes) n) cfg.acceptEqual n prev maxS votes)
+    (hlose : Slot.cand p'.1 ∉ lrBest (cfg.quota (sumVals votes) n) cfg.acceptEqual n prev maxS votes) :
+    p'.2 / cfg.quota (sumVals votes) n - (gainedQ (cfg.quota (sumVals votes) n) cfg.acceptEqual prev p' : Rat) ≤
+      p.2 / cfg.quota (sumVals votes) n - (gainedQ (cfg.quota (sumVals votes) n) cfg.acceptEqual prev p : Rat) :=
+  elected_ge_unelected _ (List.Nodup.sublist (keys_lrRems_sublist _ _ _ _ _) hnd) _ _ _
+    (mem_lrRems_of hp hel) (mem_lrRems_of hp' hel') hwin hlose
+
+/-- **Ties at the cut.**  A tie among the remainder winners names exactly the parties whose remainder equals the
+    cut value `t` (the `r`-th largest remainder), it is reported only when they do not all fit, and it occupies
+    exactly the places that the parties strictly above the cut leave over. -/
+theorem lr_tie_shape (cfg : Cfg) (votes : Votes) (n : Nat) (prev maxS : IMap) (T : List Cand)
+    (hT : Slot.tie T ∈ lrBest (cfg.quota (sumVals votes) n) cfg.acceptEqual n prev maxS votes) :
+    let rems := lrRems (cfg.quota (sumVals votes) n) cfg.acceptEqual prev maxS votes
+    let r := (remSeats (cfg.quota (sumVals votes) n) cfg.acceptEqual n prev votes).toNat
+    ∃ t, IsNth rems r t ∧ r < cntGe rems t ∧ T = level rems t ∧
+      (lrBest (cfg.quota (sumVals votes) n) cfg.acceptEqual n prev maxS votes).count (Slot.tie T) = r - cntGt rems t :=
+  tie_mem_getNBest _ _ _ hT
+
+/-- **Total.**  If the remainder seats do not outnumber the eligible parties, the result together with the
+    previous gains fills the house exactly. -/
+theorem lr_total (cfg : Cfg) (votes : Votes) (n : Nat) (prev maxS : IMap) (h : Plain cfg votes n prev)
+    (hrem : (remSeats (cfg.quota (sumVals votes) n) cfg.acceptEqual n prev votes).toNat ≤
+      (lrRems (cfg.quota (sumVals votes) n) cfg.acceptEqual prev maxS votes).length)
+    (res : Sel) (hres : largestRemainder cfg votes n prev maxS = .ok res) :
+    sumK res + sumI prev = n := by
+  rw [lr_whole_then_remainders cfg votes n prev maxS h] at hres
+  injection hres with hres
+  subst hres
+  rw [sumK_foldl_incK]
+  unfold lrBest
+  rw [getNBest_length_eq _ _ hrem]
+  have := h.no_over
+  unfold remSeats
+  unfold totalAwarded at this ⊢
+  omega
+
+/-! ## 4. exact quotas fill the house; the Hare quota rule -/
+
+/-- facts about an exact quota `q = V / (n + k)` (`k = 0` Hare, `1` Hagenbach-Bischoff, `2` Imperiali): it is
+    positive, the shares `v/q` add up to `n + k`, and the whole quotas stay below that -/
+private theorem exact_quota_facts (q : Rat) (ae : Bool) (k : Nat) (votes : Votes) (n : Nat)
+    (hqe : q = sumVals votes / ((n : Rat) + k)) (hv : ∀ p ∈ votes, 0 ≤ p.2) (hV : 0 < sumVals votes) (hn : 1 ≤ n) :
+    0 < q ∧ (votes.map (·.2)).sum / q = (n : Rat) + k ∧
+      (votes.map (fun p => wholeQ q ae p.2)).sum ≤ (n : Int) + k ∧
+      (∀ p ∈ votes, wholeQ q ae p.2 ≤ (n : Int) + k) ∧
+      ((n : Int) + k) - (votes.map (fun p => wholeQ q ae p.2)).sum ≤ votes.length := by
+  have hnk : (0 : Rat) < (n : Rat) + k := by positivity
+  have hq : 0 < q := by rw [hqe]; exact div_pos hV hnk
+  have hVq : (votes.map (·.2)).sum / q = (n : Rat) + k := by
+    rw [← sumVals_eq, hqe, div_div_eq_mul_div, mul_comm, mul_div_assoc, div_self (ne_of_gt hV), mul_one]
+  have hs := sum_rems q ae votes
+  rw [hVq] at hs
+  have hb := sum_unit_bounds (votes.map (fun p => p.2 / q - (wholeQ q ae p.2 : Rat)))
+    (by
+      intro x hx
+      obtain ⟨p, _, rfl⟩ := List.mem_map.mp hx
+      exact rem_bounds hq ae)
+  rw [hs, List.length_map] at hb
+  refine ⟨hq, hVq, ?_, ?_, ?_⟩
+  · have : (((votes.map (fun p => wholeQ q ae p.2)).sum : Int) : Rat) ≤ (((n : Int) + k : Int) : Rat) := by
+      push_cast; linarith [hb.1]
+    exact_mod_cast this
+  · intro p hp
+    have h1 : p.2 / q ≤ (votes.map (fun p => p.2 / q)).sum :=
+      mem_le_sum _ (by
+        intro x hx
+        obtain ⟨p', hp', rfl⟩ := List.mem_map.mp hx
+        exact div_nonneg (hv p' hp') (le_of_lt hq)) _ (List.mem_map.mpr ⟨p, hp, rfl⟩)
+    rw [sum_map_div, hVq] at h1
+    have h2 := (rem_bounds (v := p.2) hq ae).1
+    have : ((wholeQ q ae p.2 : Int) : Rat) ≤ (((n : Int) + k : Int) : Rat) := by push_cast; linarith
+    exact_mod_cast this
+  · have : ((((n : Int) + k) - (votes.map (fun p => wholeQ q ae p.2)).sum : Int) : Rat) ≤ ((votes.length : Int) : Rat) := by
+      push_cast; linarith [hb.2]
+    exact_mod_cast this
+
+/-- **Total for exact quotas, proved rather than assumed.**  For a quota of the form `V / (n + k)` there are
+    never more remainder seats than parties, so a plain election (no previous gains, no caps) whose whole-quota
+    stage is plain fills the house exactly. -/
+theorem lr_total_exact (cfg : Cfg) (k : Nat) (hquota : ∀ V n, cfg.quota V n = V / ((n : Rat) + k))
+    (votes : Votes) (n : Nat) (hwf : WF votes []) (hV : 0 < sumVals votes) (hn : 1 ≤ n)
+    (hnb : NoCapBinds (cfg.quota (sumVals votes) n) cfg.acceptEqual n [] [] votes)
+    (hle : totalAwarded (cfg.quota (sumVals votes) n) cfg.acceptEqual [] votes ≤ n)
+    (res : Sel) (hres : largestRemainder cfg votes n [] [] = .ok res) : sumK res = n := by
+  obtain ⟨hq, _, _, _, hlen⟩ := exact_quota_facts (cfg.quota (sumVals votes) n) cfg.acceptEqual k votes n
+    (hquota _ _) hwf.votes_nonneg hV hn
+  have hplain : Plain cfg votes n [] := ⟨hwf, hq, hnb, hle⟩
+  have := lr_total cfg votes n [] [] hplain (by
+    rw [lrRems_plain hq _ _ hwf.votes_nonneg, List.length_map]
+    unfold remSeats totalAwarded
+    rw [totalAwarded_plain_aux hq _ _ hwf.votes_nonneg]
+    have : sumI [] = 0 := rfl
+    omega) res hres
+  have h0 : sumI [] = 0 := rfl
+  omega
+
+/-- **Hare.**  With the Hare quota a plain election always succeeds and fills exactly `n` seats: no hypothesis on
+    the whole quotas is needed (they never exceed the house, and never over-award). -/
+theorem lr_total_hare (ae : Bool) (pol : OnOver) (votes : Votes) (n : Nat) (hwf : WF votes [])
+    (hV : 0 < sumVals votes) (hn : 1 ≤ n) :
+    ∃ res, largestRemainder ⟨Gen.Quota.hare, ae, pol, true⟩ votes n [] [] = .ok res ∧ sumK res = n := by
+  have hquota : ∀ (V : Rat) (m : Nat), Gen.Quota.hare V m = V / ((m : Rat) + (0 : Nat)) := by
+    intro V m; rw [quota_textbook_hare]; simp
+  obtain ⟨hq, _, hsum, hmem, _⟩ := exact_quota_facts (Gen.Quota.hare (sumVals votes) n) ae 0 votes n
+    (hquota _ _) hwf.votes_nonneg hV hn
+  have hnb : NoCapBinds (Gen.Quota.hare (sumVals votes) n) ae n [] [] votes := by
+    intro p hp
+    left
+    have := hmem p hp
+    rw [getI_nil]
+    simpa using this
+  have hle : totalAwarded (Gen.Quota.hare (sumVals votes) n) ae [] votes ≤ n := by
+    unfold totalAwarded
+    rw [totalAwarded_plain_aux hq _ _ hwf.votes_nonneg]
+    have : sumI [] = 0 := rfl
+    simp only [Nat.cast_zero, add_zero] at hsum
+    omega
+  have hplain : Plain ⟨Gen.Quota.hare, ae, pol, true⟩ votes n [] := ⟨hwf, hq, hnb, hle⟩
+  refine ⟨_, lr_whole_then_remainders _ votes n [] [] hplain, ?_⟩
+  exact lr_total_exact ⟨Gen.Quota.hare, ae, pol, true⟩ 0 hquota votes n hwf hV hn hnb hle _
+    (lr_whole_then_remainders _ votes n [] [] hplain)
+
+/-- **Hagenbach-Bischoff**: the total is `n` whenever the whole-quota stage is plain -/
+theorem lr_total_hagenbach_bischoff (ae : Bool) (pol : OnOver) (votes : Votes) (n : Nat) (hwf : WF votes [])
+    (hV : 0 < sumVals votes) (hn : 1 ≤ n)
+    (hnb : NoCapBinds (Gen.Quota.hagenbach_bischoff (sumVals votes) n) ae n [] [] votes)
+    (hle : totalAwarded (Gen.Quota.hagenbach_bischoff (sumVals votes) n) ae [] votes ≤ n)
+    (res : Sel) (hres : largestRemainder ⟨Gen.Quota.hagenbach_bischoff, ae, pol, true⟩ votes n [] [] = .ok res) :
+    sumK res = n :=
+  lr_total_exact ⟨Gen.Quota.hagenbach_bischoff, ae, pol, true⟩ 1
+    (by intro V m; show Gen.Quota.hagenbach_bischoff V m = _; rw [quota_textbook_hagenbach_bischoff]; simp) votes n hwf hV hn hnb hle res hres
+
+/-- **Imperiali**: the total is `n` whenever the whole-quota stage is plain -/
+theorem lr_total_imperiali (ae : Bool) (pol : OnOver) (votes : Votes) (n : Nat) (hwf : WF votes [])
+    (hV : 0 < sumVals votes) (hn : 1 ≤ n)
+    (hnb : NoCapBinds (Gen.Quota.imperiali (sumVals votes) n) ae n [] [] votes)
+    (hle : totalAwarded (Gen.Quota.imperiali (sumVals votes) n) ae [] votes ≤ n)
+    (res : Sel) (hres : largestRemainder ⟨Gen.Quota.imperiali, ae, pol, true⟩ votes n [] [] = .ok res) :
+    sumK res = n :=
+  lr_total_exact ⟨Gen.Quota.imperiali, ae, pol, true⟩ 2
+    (by intro V m; show Gen.Quota.imperiali V m = _; rw [quota_textbook_imperiali]; simp) votes n hwf hV hn hnb hle res hres
+
 end VL.C02
